@@ -489,3 +489,199 @@ Proof.
     destruct (L_match_total parsed (items_of_names 0 names) W) as [ms H]. eauto.
   - left. eauto.
 Qed.
+
+(* ---- destinations of non-pattern specs are git's get_local_ref -------------------------------- *)
+
+Lemma L_destination_is_git d :
+  has_star d = false -> oid_from_hex d = None -> to_bstr (needle_of d) = Ok (get_local_ref d).
+Proof.
+  intros Hs Ho. unfold needle_of, c_star. rewrite find_byte_index_of.
+  unfold has_star in Hs. destruct (index_of x2a d); [discriminate|].
+  unfold get_local_ref. change is_prefix with starts_with. unfold refs_prefix.
+  destruct (starts_with (bs "refs/") d); [reflexivity|]. rewrite Ho.
+  unfold to_bstr, to_bstr_replace.
+  destruct (starts_with (bs "heads/") d || starts_with (bs "tags/") d || starts_with (bs "remotes/") d);
+    reflexivity.
+Qed.
+
+(* an object-id destination (40 hex digits) goes to refs/heads/<lower-case hex>; git keeps the digits as typed *)
+Lemma L_destination_hex d id :
+  has_star d = false -> starts_with refs_prefix d = false -> oid_from_hex d = Some id ->
+  to_bstr (needle_of d) = Ok (bs "refs/heads/" ++ hex_encode id).
+Proof.
+  intros Hs Hr Ho. unfold needle_of, c_star. rewrite find_byte_index_of.
+  unfold has_star in Hs. destruct (index_of x2a d); [discriminate|]. rewrite Hr, Ho. reflexivity.
+Qed.
+
+(* ---- negative specs remove exactly the names git's omit_name_by_refspec omits ----------------- *)
+
+Definition kept_by (s : rspec) (x : mapping) : bool :=
+  match mlhs x with
+  | SObjectId _ => true
+  | SFullName n => negb (git_refspec_match s n)
+  end.
+
+Lemma L_negative_is_git s src out :
+  ssrc s = Some src -> sdst s = None -> (has_star src = true \/ oid_from_hex src = None \/ starts_with refs_prefix src = true) ->
+  retain_not_matching (matcher_of s) out = Ok (filter (kept_by s) out).
+Proof.
+  intros Hsrc Hdst Hkind.
+  assert (K : forall n, match lhs (matcher_of s) with
+                        | Some (PartialName partial) => Ok (negb (bytes_eqb partial n))
+                        | _ => (res <- matches_lhs (matcher_of s) (null_item n) ;; Ok (negb (fst res)))%outcome
+                        end = (Ok (negb (git_refspec_match s n)) : outcome bool unit)).
+  { intros n. unfold matcher_of, git_refspec_match, g_pattern, g_src. rewrite Hsrc, Hdst. cbn [option_map lhs rhs].
+    destruct (index_of x2a src) as [klen|] eqn:E.
+    - rewrite (needle_of_glob _ _ E).
+      pose proof (glob_only_git src klen (null_item n) E) as G. rewrite G. cbn [obind fst iname null_item].
+      destruct (git_match_name_with_pattern src n None); reflexivity.
+    - unfold needle_of, c_star. rewrite find_byte_index_of, E.
+      destruct (starts_with refs_prefix src) eqn:Er.
+      + unfold matches_lhs. cbn [lhs rhs needle_matches obind iname null_item].
+        destruct (bytes_eqb src n); reflexivity.
+      + destruct Hkind as [H|[H|H]]; [unfold has_star in H; rewrite E in H; discriminate| |discriminate].
+        rewrite H. reflexivity. }
+  induction out as [|x out IH]; cbn [retain_not_matching filter]; [reflexivity|].
+  unfold kept_by at 1. destruct (mlhs x) as [n|id].
+  - rewrite (K n). cbn [obind]. rewrite IH. cbn [obind]. reflexivity.
+  - cbn [obind]. rewrite IH. cbn [obind]. reflexivity.
+Qed.
+
+(* ---- a non-pattern source resolves to the reference git's find_ref_by_name_abbrev picks ------- *)
+
+Definition best_expansion (names : list bytes) (name : bytes) : option bytes :=
+  find_map (fun e => if existsb (bytes_eqb e) names then Some e else None) (expansions name).
+
+Lemma find_map_ext {A B} (f g : A -> option B) l : (forall x, f x = g x) -> find_map f l = find_map g l.
+Proof. intros H. induction l as [|x l IH]; cbn [find_map]; [reflexivity|]. rewrite H, IH. reflexivity. Qed.
+
+Lemma find_map_option_map {A B C} (g : B -> C) (f : A -> option B) l :
+  option_map g (find_map f l) = find_map (fun x => option_map g (f x)) l.
+Proof. induction l as [|x l IH]; cbn [find_map]; [reflexivity|]. destruct (f x); cbn [option_map]; auto. Qed.
+
+Lemma find_item_names e : forall names i j,
+  option_map (fun p => iname (snd p)) (find_item e (enumerate i (items_of_names j names))) =
+  if existsb (bytes_eqb e) names then Some e else None.
+Proof.
+  induction names as [|n names IH]; intros i j; cbn [items_of_names enumerate find_item find existsb]; [reflexivity|].
+  cbn [snd iname item_of_name]. rewrite (bytes_eqb_sym n e).
+  destruct (bytes_eqb e n) eqn:E; cbn [orb option_map snd iname item_of_name].
+  - apply bytes_eqb_eq in E. subst. reflexivity.
+  - apply IH.
+Qed.
+
+Lemma model_resolution names name :
+  option_map (fun p => iname (snd p))
+    (expand_partial_name name (fun e => find_item e (enumerate 0 (items_of_names 0 names)))) =
+  best_expansion names name.
+Proof.
+  unfold expand_partial_name, best_expansion. rewrite find_map_option_map.
+  apply find_map_ext. intros e. apply find_item_names.
+Qed.
+
+Lemma find_map_first {A} (P : A -> bool) (d : A) : forall l,
+  match find_map (fun e => if P e then Some e else None) l with
+  | None => forall e, In e l -> P e = false
+  | Some e => exists k, (k < length l)%nat /\ nth k l d = e /\ P e = true /\
+                        forall j, (j < k)%nat -> P (nth j l d) = false
+  end.
+Proof.
+  induction l as [|x l IH]; cbn [find_map]; [intros e []|].
+  destruct (P x) eqn:E.
+  - exists 0%nat. cbn [length nth]. repeat split; try lia; auto.
+  - destruct (find_map _ l) as [e|].
+    + destruct IH as (k & Hk & Hn & Hp & Hj). exists (S k). cbn [length nth]. repeat split; try lia; auto.
+      intros [|j] Hlt; [exact E|]. apply Hj. lia.
+    + intros e [<-|H]; auto.
+Qed.
+
+Lemma find_best_spec name : forall refs best bs,
+  (find_best refs name best bs = best /\ forall r, In r refs -> (refname_match name r <= bs)%nat) \/
+  (exists r, find_best refs name best bs = Some r /\ In r refs /\ (bs < refname_match name r)%nat /\
+             forall r', In r' refs -> (refname_match name r' <= refname_match name r)%nat).
+Proof.
+  induction refs as [|x refs IH]; intros best bs; cbn [find_best].
+  - left. split; [reflexivity|intros r []].
+  - destruct (Nat.ltb bs (refname_match name x)) eqn:E.
+    + apply Nat.ltb_lt in E. right.
+      destruct (IH (Some x) (refname_match name x)) as [[H1 H2]|(r & H1 & H2 & H3 & H4)].
+      * exists x. rewrite H1. repeat split; auto; [left; reflexivity|].
+        intros r' [<-|Hr]; [lia|auto].
+      * exists r. repeat split; auto; [right; exact H2|lia|].
+        intros r' [<-|Hr]; [lia|auto].
+    + apply Nat.ltb_ge in E.
+      destruct (IH best bs) as [[H1 H2]|(r & H1 & H2 & H3 & H4)].
+      * left. split; [exact H1|]. intros r [<-|Hr]; [lia|auto].
+      * right. exists r. repeat split; auto; [right; exact H2|].
+        intros r' [<-|Hr]; [lia|auto].
+Qed.
+
+Lemma score_cases name r :
+  (refname_match name r = 0%nat /\ forall e, In e (expansions name) -> e <> r) \/
+  (exists k, (k < 6)%nat /\ refname_match name r = (6 - k)%nat /\ nth k (expansions name) [] = r /\
+             forall j, (j < k)%nat -> nth j (expansions name) [] <> r).
+Proof.
+  unfold refname_match, rev_parse_rules, refname_match_from. cbn [length app]. rewrite !app_nil_r.
+  destruct (bytes_eqb name r) eqn:E0.
+  { right. exists 0%nat. apply bytes_eqb_eq in E0. repeat split; auto; try lia. }
+  destruct (bytes_eqb (bs "refs/" ++ name) r) eqn:E1.
+  { right. exists 1%nat. apply bytes_eqb_eq in E1. repeat split; auto; try lia.
+    intros [|j] Hj; [|lia]. cbn [nth expansions]. apply bytes_eqb_neq. exact E0. }
+  destruct (bytes_eqb (bs "refs/tags/" ++ name) r) eqn:E2.
+  { right. exists 2%nat. apply bytes_eqb_eq in E2. repeat split; auto; try lia.
+    intros [|[|j]] Hj; try lia; cbn [nth expansions]; apply bytes_eqb_neq; assumption. }
+  destruct (bytes_eqb (bs "refs/heads/" ++ name) r) eqn:E3.
+  { right. exists 3%nat. apply bytes_eqb_eq in E3. repeat split; auto; try lia.
+    intros [|[|[|j]]] Hj; try lia; cbn [nth expansions]; apply bytes_eqb_neq; assumption. }
+  destruct (bytes_eqb (bs "refs/remotes/" ++ name) r) eqn:E4.
+  { right. exists 4%nat. apply bytes_eqb_eq in E4. repeat split; auto; try lia.
+    intros [|[|[|[|j]]]] Hj; try lia; cbn [nth expansions]; apply bytes_eqb_neq; assumption. }
+  destruct (bytes_eqb (bs "refs/remotes/" ++ name ++ bs "/HEAD") r) eqn:E5.
+  { right. exists 5%nat. apply bytes_eqb_eq in E5. repeat split; auto; try lia.
+    intros [|[|[|[|[|j]]]]] Hj; try lia; cbn [nth expansions]; apply bytes_eqb_neq; assumption. }
+  left. split; [reflexivity|]. unfold expansions.
+  intros e [<-|[<-|[<-|[<-|[<-|[<-|[]]]]]]]; apply bytes_eqb_neq; assumption.
+Qed.
+
+Lemma existsb_bytes_In e names : existsb (bytes_eqb e) names = true <-> In e names.
+Proof.
+  rewrite existsb_exists. split.
+  - intros (x & Hx & E). apply bytes_eqb_eq in E. subst. exact Hx.
+  - intros H. exists e. split; [exact H|apply bytes_eqb_refl].
+Qed.
+
+Lemma expansions_length name : length (expansions name) = 6%nat.
+Proof. reflexivity. Qed.
+
+Lemma git_resolution names name : find_ref_by_name_abbrev names name = best_expansion names name.
+Proof.
+  unfold find_ref_by_name_abbrev, best_expansion.
+  pose proof (find_map_first (fun e => existsb (bytes_eqb e) names) [] (expansions name)) as B.
+  destruct (find_best_spec name names None 0) as [[H1 H2]|(r & H1 & H2 & H3 & H4)].
+  - rewrite H1. destruct (find_map _ (expansions name)) as [e|]; [|reflexivity].
+    destruct B as (k & Hk & Hn & Hp & _). apply existsb_bytes_In in Hp.
+    specialize (H2 e Hp). destruct (score_cases name e) as [[_ Hne]|(k' & Hk' & Hs & _)].
+    + exfalso. apply (Hne e); [|reflexivity]. rewrite <- Hn. apply nth_In. exact Hk.
+    + lia.
+  - rewrite H1. destruct (score_cases name r) as [[Hz _]|(k & Hk & Hs & Hn & Hj)]; [lia|].
+    destruct (find_map _ (expansions name)) as [e|].
+    + destruct B as (k' & Hk' & Hn' & Hp' & Hj'). apply existsb_bytes_In in Hp'.
+      rewrite expansions_length in Hk'.
+      assert (k' <= k)%nat as L1.
+      { destruct (Nat.le_gt_cases k' k) as [|G]; [assumption|]. specialize (Hj' k G). rewrite Hn in Hj'.
+        apply (proj2 (existsb_bytes_In r names)) in H2. congruence. }
+      destruct (score_cases name e) as [[_ Hne]|(k'' & Hk'' & Hs'' & Hn'' & Hj'')].
+      * exfalso. apply (Hne e); [|reflexivity]. rewrite <- Hn'. apply nth_In. rewrite expansions_length. exact Hk'.
+      * assert (k'' <= k')%nat as L2.
+        { destruct (Nat.le_gt_cases k'' k') as [|G]; [assumption|]. exfalso. apply (Hj'' k' G). exact Hn'. }
+        specialize (H4 e Hp'). assert (k = k') by lia. subst k'. congruence.
+    + exfalso. assert (In r (expansions name)) as Hin.
+      { rewrite <- Hn. apply nth_In. rewrite expansions_length. exact Hk. }
+      specialize (B r Hin). cbv beta in B. apply (proj2 (existsb_bytes_In r names)) in H2. congruence.
+Qed.
+
+Lemma L_name_resolution_is_git names name :
+  option_map (fun p => iname (snd p))
+    (expand_partial_name name (fun e => find_item e (enumerate 0 (items_of_names 0 names)))) =
+  find_ref_by_name_abbrev names name.
+Proof. rewrite model_resolution, git_resolution. reflexivity. Qed.
